@@ -13,9 +13,9 @@ NOTE = ("Trusted: TLC/SANY, CPython, the dumb projection/driver code in harness/
         "rationals per layer, comparisons that cannot be made exactly are counted as unchecked.")
 
 CLAIMS = {
- "C01": ("6.C01", "Every recorded append schedule is validated step by step against the spec (manager stage exact, every new reading = layer function of the stored inputs, old readings bit-identical) and the final state is compared bit for bit with a batch twin by TLC; all 26 indicator kinds x timeframes S/T/H/D x fill x schedules."),
+ "C01": ("6.C01", "Every recorded append schedule is validated step by step against the spec (manager stage exact, every new reading = layer function of the stored inputs, old readings bit-identical) and the final state is compared bit for bit with a batch twin by TLC; all 26 indicator kinds x timeframes S/T/H/D x fill x schedules.  MC_Engine checks the design exhaustively in its bounds; behaviours of the engine model (TLC simulation, 19 kinds, every call with the complete expected state) are replayed into a real Hexital and compared after every call."),
  "C02": ("6.C02", "TLC checks on every observed step that no carried reading or closed candle changes (repaint clause) and that the state equals the prefix of a batch over a longer stream (look-ahead clause)."),
- "C03": ("6.C03", "MC_Manager: the seven-way collapse walk equals right-closed resampling under every stream over the gap alphabet and every chunking (exhaustive in the bounds); every distinct model state is replayed into CandleManager/Indicator; recorded irregular streams (S/T/H/D) are validated against both the walk and the definitional resampler."),
+ "C03": ("6.C03", "MC_Manager: the seven-way collapse walk equals right-closed resampling under every stream over the gap alphabet and every chunking (exhaustive in the bounds); every distinct model state is replayed into CandleManager/Indicator; recorded irregular streams (S/T/H/D) are validated against both the walk and the definitional resampler.  The bucket assignment of one walk step (the operator Manager.tla's Walk is built from, Buckets.tla) is additionally proved inductively for ALL integers with Apalache (label = Bucket(t), merged iff same bucket, InvalidCandleOrder unreachable on admissible input)."),
  "C04": ("6.C04", "Per-layer validation of SMA/EMA/RMA/WMA/VWMA/HMA readings against exact-rational layer functions (recurrence from the stored previous value, window forms), including inputs that are other indicators starting late; between-min-max clause."),
  "C05": ("6.C05", "Per-layer validation of TR/ATR/STDEV/BBANDS/KC/Donchian/HL/HLA/Supertrend/STDEVTHRES/Counter against the spec's transcription of their definitions (square roots compared through squares)."),
  "C06": ("6.C06", "Per-layer validation of RSI/MACD/ROC/STOCH/TSI/AROON/ADX/OBV/VWAP and all their helper series against the spec's definitions."),
@@ -23,11 +23,11 @@ CLAIMS = {
  "C10": ("6.C10", "Structural relations (ranges, band order, enclosure, identities, Supertrend exclusivity, OBV/Counter steps, rounding to round_value) are TLA+ predicates evaluated by TLC on every observed state."),
  "C11": ("6.C11", "MC_Manager with Heikin-Ashi: conversion resume index, merge = recover + retag, clean values; deviation config (as-shipped resume index) must violate the invariant; all model states replayed; recorded standalone/Hexital traces from 0/1/2/n candles validated."),
  "C12": ("6.C12", "MC_Manager with fill: contiguity, inserted candles flat at previous close with volume 0, real buckets = resampling; model states replayed; recorded multi-gap streams validated against FillDef(Resample(raw))."),
- "C15": ("6.C15", "MC_Manager with lifespans: window invariant; recorded runs validated against Trim and, where the spec's look-back precondition holds at every append, readings compared bit for bit with the tail of an untrimmed twin."),
+ "C15": ("6.C15", "MC_Manager with lifespans: window invariant.  MC_Lifespan: the engine on a trimmed list -- while the property's look-back precondition (Props!SurvOK: Look(c) warmed-up survivors in front of the first new candle) has held at every append the readings equal those of the untrimmed run, for recursive, composite and windowed kinds under every chunking (exhaustive in the bounds); the as-shipped resume rule must violate it.  Recorded runs are validated against Trim and, under the same precondition, compared bit for bit with the tail of an untrimmed twin, including chunks that leave exactly the look-back."),
  "C07": ("6.C07", "A sys.monitoring recorder (no repo hook) logs, for every single-candle append after warm-up, which (series, index) readings were computed and the oldest candle read; TLC checks against the specification that only the new (or re-merged) positions were computed, each a bounded number of times, and that no candle older than the warm-up look-back was read; all kinds, timeframes and a multi-member Hexital."),
  "C08": ("6.C08", "Hexital runs (members as objects, dicts and settings dicts; mixed timeframes; Hexital-level timeframe/fill/lifespan/Heikin-Ashi; construction vs chunks) are validated step by step against the spec (manager creation from raw copies, append fan-out) and every member's column and candles are compared bit for bit by TLC with a standalone twin of the same effective configuration."),
  "C13": ("6.C13", "Pairs and triples with substring-related names and composites next to their building blocks: TLC checks that purge/recalculate/remove aimed at one member leaves the other columns bit-identical (interference clause) and that each column equals the one obtained alone and under the reversed registration order."),
- "C14": ("6.C14", "Random programs over append/calculate/purge/recalculate/calculate_index(+/-i)/add/remove are validated step by step: purge leaves exactly the state the spec's MgrPurge of the transitively owned names gives, recalculate and calculate_index reproduce the stored readings bit for bit, and the final calculate() equals a batch twin of the final registry."),
+ "C14": ("6.C14", "Random programs over append/calculate/purge/recalculate/calculate_index(+/-i)/add/remove are validated step by step: purge leaves exactly the state the spec's MgrPurge of the transitively owned names gives, recalculate and calculate_index reproduce the stored readings bit for bit, and the final calculate() equals a batch twin of the final registry.  MC_Engine: idempotence, reproduction and convergence to batch under every interleaving in its bounds; its simulated behaviours are replayed into a real Hexital call by call."),
  "C19": ("6.C19", "Read-only calls (str, repr, name, settings, has_reading, reading, prev_reading, as_list, reading_count, reading_period, candles_sum and the Hexital equivalents) interleaved with appends given as Candle/dict/list: TLC checks that nothing in the projected state or the object's attributes changed, that the caller's containers are unchanged, and that every timeframe received the same candle."),
  "C20": ("6.C20", "Every accessor path (Indicator.reading/prev_reading/as_list/read_candle/has_reading/reading_count, Hexital.reading/prev_reading/reading_as_list/has_reading; plain and dotted names; positive and negative indices) is compared by TLC with the spec's Reading function on the observed candles, on states holding legitimate 0/False readings."),
  "C16": ("6.C16", "Every movement and pattern function is called on generated candle lists (missing readings, late/early series, scaled and shifted copies) at every index in three ways -- positive index, negative index, default position on the truncated list -- and TLC compares each result with the specification's causal, index-consistent definition; the Amorph-wrapped functions are validated live and against a batch twin."),
@@ -62,7 +62,7 @@ m = {
            "baseline_off_cmd": "cd /repo && /venv/bin/python -m pytest -q -p no:cacheprovider",
            "source_commits": [], "add_only": True},
  "engines": [{"name": "tla-trace", "path": "/verif/spec", "serves_properties": sorted(CLAIMS),
-              "kind_free_text": "TLA+ modules Rat/Candle/Manager/Val/Indicators/Props + MC_* bounded models checked by TLC; Trace.tla validates executions recorded from /repo (harness/) and TLC-emitted model states are replayed into the code"}],
+              "kind_free_text": "TLA+ modules Rat/Buckets/Candle/Manager/Val/Analysis/Indicators/Props/Engine/Defs + MC_* bounded models checked by TLC (Apa_Walk by Apalache); Trace.tla validates executions recorded from /repo (harness/); TLC-emitted model states (manager) and simulated behaviours (engine) are replayed into the code"}],
  "checks": checks,
  "not_applicable": na,
  "notes": "One entry point: ./check <ID> [--tier quick|thorough] [--replay FILE]. Exit 2 = machinery failure (never a verdict).",
